@@ -14,7 +14,7 @@ CLAIMED = {
  'C03': dict(
     cat='model_checking', ref='6/C03',
     text='The embedding of a k-qubit operator (ordered targets, control set) is specified by its textbook definition over Z[w]; TLC enumerates EVERY configuration (n<=3 quick, n<=4 thorough; all ordered target tuples of size 1..3, all control subsets, all matrix units) and checks a second index-relabelling formulation against the definition; each configuration is replayed through state.apply_gate / apply_control_n_gate / dm.apply_gate / dm.operator_expectation / the Circuit-level generic and controlled methods on all basis columns and on non-unit superpositions (linearity then covers every state and gate matrix). A TLA+ state machine of the Circuit class (one action per public method family incl. parametrized, multi-controlled, generic-matrix, user-registered gates, append_gate, extend_circuit, shift_qubit_index_) is simulated by TLC with exact Z[w] amplitudes (invariants: norm, unitarity, Unitary e0 = Run, definition = fast path); every behaviour is stepped through a real Circuit object comparing apply_state after every call, to_unitary, all Born marginals and a Pauli-string matrix element.',
-    note='Trusted: TLC/SANY, tolerance 1e-9 on complex128, literal copies of the generic test matrices in harness/qsim.py. Rotation angles on the pi/2 (phases pi/4) grid; routing is value-independent.',
+    note='Also: Circuit histories with placeholder gates / setP / re-use / extend / shift, and MC_Graph (every simple graph on <= 4 (5) vertices: closed-form amplitudes and K_i stabilizers as invariants) replayed into build_graph_state. Trusted: TLC/SANY, tolerance 1e-9 on complex128, literal copies of the generic test matrices in harness/qsim.py. Rotation angles on the pi/2 (phases pi/4) grid; routing is value-independent.',
     technique='TLA+ spec of operator embedding and of the Circuit state machine over Z[w]; TLC exhaustive configuration enumeration + simulation; behaviours replayed step by step into the code'),
  'C04': dict(
     cat='model_checking', ref='6/C04',
@@ -54,8 +54,8 @@ CLAIMED = {
  'C12': dict(
     cat='model_checking', ref='6/C12',
     text='Channels are specified from Kraus operators with Gaussian-integer entries in the documented index conventions (Choi (in,out,in,out), super-operator on row-major vec). TLC enumerates instances (dim_in, dim_out in 1..3 incl. non-square, 1..2 terms; 1..4 x 1..4 thorough; plus trace-preserving integer families) and proves on each that the three apply definitions agree on every matrix unit, the Choi<->super reshuffles are mutually inverse, the Choi matrix is Hermitian and trace preservation <=> Tr_out C = I. Every instance is replayed through all conversion and apply routines (numpy and torch where offered); Kraus forms obtained back are judged through the channel they define; the Bloch map through the C16-verified Gell-Mann coordinates; built-in noise channels at rational rates. Contractivity is decided on the classical subdomain (diagonal rational states x relabelling channels, d=4) where trace distance and fidelity are exact rationals: TLC proves monotonicity/symmetry/range on the exact values and get_trace_distance/get_fidelity are compared with them before and after the channel.',
-    note='NOT covered: relative / von Neumann entropy (logarithms), contractivity for genuinely quantum state pairs, fidelity after a non-injective channel only as an inequality. Tolerance 1e-9 / 1e-8.',
-    technique='TLA+ spec of channel representations over Z[i] and of classical contractivity over Q; TLC exhaustive instance enumeration; expected tables replayed into the code'),
+    note='Qubit pairs: MC_Qubit takes every rational Bloch-ball point with rational purity defect and dephasing / depolarizing / amplitude-damping / rational unitaries as affine maps; TLC proves trace-distance contraction and fidelity monotonicity exactly (quadratic irrationals compared by squaring) and the exact values are replayed into apply_*_op, get_trace_distance, get_fidelity. NOT covered: relative / von Neumann entropy (logarithms), contractivity for pairs beyond one qubit outside the classical subdomain. Tolerance 1e-9 / 1e-8 (1e-6 at rank-deficient arguments).',
+    technique='TLA+ spec of channel representations over Z[i], of classical contractivity over Q and of the qubit Bloch-ball affine channel model; TLC exhaustive instance enumeration; expected tables replayed into the code'),
  'C13': dict(
     cat='model_checking', ref='6/C13',
     text='Two exactly solvable two-qubit families are specified: Bell-diagonal states with integer weights (all ranks, separable-threshold and near-threshold weights) conjugated by local phased permutations, and pure states with Gaussian-integer amplitudes. TLC enumerates the grid and proves on every state: closed forms C = max(0, 2 p_max - 1), negativity = max(0, p_max - 1/2) lie in their ranges, C > 0 <=> negativity > 0 <=> NPT, and the partial transpose is PSD exactly when p_max <= 1/2 (exact rational LDL^T). Each state is replayed: get_concurrence_2qubit / get_negativity / get_eof_2qubit / get_gme_2qubit / is_ppt against the exact values and their defining monotone relations (finiteness, ranges, zero pattern, local-unitary invariance), get_concurrence_pure / get_eof_pure and the reduction of the mixed-state formulas on projectors. Convex-roof models (EOF, concurrence, GME, linear entropy) are evaluated at random parameter points of three scales with ensemble sizes max(rank,2)..8 and must never fall below the exact closed-form value.',
@@ -94,8 +94,8 @@ CLAIMED = {
  'C20': dict(
     cat='model_checking', ref='6/C20',
     text='The seven structure classes of get_matrix_orthogonal_basis are specified as a decision table (complex?, scalar field, symmetric?, Hermitian?) with their ambient dimensions, and the dimension of the span of (Gaussian-)integer generators is computed exactly by fraction-free elimination over Z / Z[i] in TLA+. TLC enumerates instances of every class (real and complex generators, sizes 2..3 / 4, non-square for the general classes, planted linear dependencies); each is handed to the library and the recorded (label, dim basis, dim complement) is validated by TLC: label = table entry, dim basis = exact dimension, dim basis + dim complement = ambient. Rank certificates: TLC builds subspaces with a PLANTED element of rank r-1 (real / complex bipartite, r = 2, 3) or a planted product vector (tripartite), hidden by a unimodular basis change, and proves the provenance (P in the span, exact rank of P, independence); the subspace is handed over as an orthonormal basis and TLC rejects any recorded positive answer of has_rank_hierarchical_method (levels 1..2/3), detect_real_matrix_subspace_rank_one (150 / 1000 planted instances) or is_ABC_completely_entangled_subspace.',
-    note='NOT covered: orthogonality / equal norm / equal span of the floating bases, numerical-range support points. The orthonormal basis handed to the certificates is produced by numpy QR in the harness.',
-    technique='TLA+ decision table + exact rank by fraction-free elimination; TLC-proved provenance of planted low-rank elements; TLC trace validation of recorded labels, dimensions and certificates'),
+    note='The returned frames are part of the trace (rounded to integers at scale 4000): Trace_MatrixSpace checks one common norm, mutual orthogonality, complement orthogonal to the basis, every generator reproduced by its projection, and the realified block form of the classes R_c / R_cT. MC_NumRange computes the exact support function of W(A) in the axis directions for every 2x2 Gaussian-integer block with rational support and direct sums of size 3, 5, 6; replayed into get_matrix_numerical_range. NOT covered: support points in other directions, SDP-based joint numerical ranges. The orthonormal basis handed to the certificates is produced by numpy QR in the harness.',
+    technique='TLA+ decision table + exact rank by fraction-free elimination; TLC-proved provenance of planted low-rank elements; TLC trace validation of recorded labels, dimensions, returned frames and certificates; exact support-function model replayed into the code'),
 }
 
 NOT_APPLICABLE = {
